@@ -1,5 +1,6 @@
 import PdfModel.Lemmas.ContentInst
 import PdfModel.Lemmas.ContentTable
+import PdfModel.Lemmas.ContentF32
 
 /-!
 # C08 — content-stream operators round-trip and mean what the operator table says
@@ -12,9 +13,12 @@ subject of C03/C04.  `serializeOps` mirrors `content::serialize_ops` (with every
 
 Reals are a parameter: any type `R` with operations `ro : RealOps R` satisfying `RealLaws ro` (for `f32`:
 `==` is an equivalence on finite values, unary minus respects it, an integral value that `{}` prints as an
-integer token converts back with `i32 as f32` to an `==` value).  The laws are *hypotheses* of the theorems,
-validated on the `f32` instance by the correspondence stream `c08.real`; `intLaws`, `zLaws` show that they are
-satisfiable (`zLaws`: with two zeros that are `==`, as in `f32`).
+integer token converts back with `i32 as f32` to an `==` value).  For the bit-level `f32` instance that the
+model driver runs (`Content.F32.ops`: IEEE-754 binary32 as integer arithmetic on the bit pattern) the laws are
+*proved* (`Content.F32.f32Laws`, `Lemmas/ContentF32.lean`), so `parse_serialize_ops_f32` has no hypothesis about
+reals; that this instance computes what Rust's `f32` computes (`==`, `-`, `as f32`, `{}`) is what the
+correspondence stream `c08.real` compares, and the oracle `c08.laws` checks the laws on Rust's `f32` directly.
+`intLaws`, `zLaws` are further instances (`zLaws`: two zeros that are `==`).
 
 `cfg.primDot` says whether `Primitive::Number` is written with a decimal point always (D9 of the C03/C04
 package repaired in primitive.rs); the check detects it on the tree under test and passes it to the model.
@@ -43,6 +47,13 @@ theorem parse_serialize_ops (laws : RealLaws ro) (cfg : Cfg) (allow : Bool) (ops
   unfold parseOps
   rw [h2]
   simp [h3, initState]
+
+/-- **Round trip for `f32`** (the instance the driver runs, laws proved): no assumption about the reals. -/
+theorem parse_serialize_ops_f32 (cfg : Cfg) (allow : Bool) (ops : List (Op UInt32))
+    (hfin : ∀ o ∈ ops, finiteOp F32.ops o = true) (hacc : ∀ o ∈ ops, acceptedOp F32.ops cfg o = true) :
+    ∃ toks ops', serializeOps F32.ops cfg ops = .ok toks ∧ parseOps F32.ops allow toks = .ok ops' ∧
+      opsEquiv F32.ops ops' ops = true :=
+  parse_serialize_ops F32.ops F32.f32Laws cfg allow ops hfin hacc
 
 /-- The full-strength statement of clause 1 for a given state of D9: *every* sequence of operations with
     finite operands other than inline images (which the serializer rejects, `serialize_total`) round-trips. -/
